@@ -230,6 +230,13 @@ class Entity:
     def h(self, eid):
         self.model.h(eid=eid)
 
+    def __repr__(self):
+        # a half-initialised entity: printing it fails (an error report that prints
+        # the handler object must cope)
+        raise AttributeError("'Entity' object has no attribute 'name'")
+
+    __str__ = __repr__
+
 
 class SubEventA(SimEvent):
     """User subclasses of SimEvent (ids must still follow creation order across
@@ -369,6 +376,10 @@ class Runner:
 
     def after_handler(self, model, eid):
         self.total_executed += 1
+        if self.case.get("late_tc") == self.total_executed:
+            self.count("late_TIME_CHANGED_subscription")
+            self.sim.add_listener(SimulatorInterface.TIME_CHANGED_EVENT, self.collector)
+            self.hist.H.append(("tc_subscribed", self.cmd_index))
         if self.total_executed in self.pause_at:
             self.count("pause_from_handler")
             self.do_cmd_from_callback(["stop"], "handler")
@@ -723,7 +734,12 @@ class Runner:
 
     def subscribe(self):
         ones = self.case.get("oneshot_listeners") or ()
+        late = self.case.get("late_tc")
         for name, et in SIM_EVENT_TYPES:
+            if late and name == "TIME_CHANGED":
+                # nobody listens for time changes when the run starts: the recorder
+                # subscribes to them from inside a handler (see after_handler)
+                continue
             if name in ones:
                 # a one-shot subscriber registered BEFORE the recorder: it unsubscribes
                 # itself from inside its first notification; the subscribers after it
@@ -949,6 +965,8 @@ class Runner:
         if self.prog.get("tc_listener"):
             hooks["TIME_CHANGED"] = self.listener_hook
         self.collector = Collector(self.hist, hooks)
+        if case.get("late_tc"):
+            self.hist.H.append(("tc_late_mode", case["late_tc"]))
         oversleep = None
         if sc.get("oversleep"):
             orng = common.rng_for(sc.get("seed", 0), "oversleep")
